@@ -29,41 +29,52 @@ def main():
     prop, mdir = sys.argv[1], sys.argv[2].rstrip("/")
     checks = sys.argv[3:] or [prop]
     wt = "/tmp/wt/" + prop
-    meta = json.load(open(os.path.join(mdir, "meta.json")))
+    meta = json.load(open(os.path.join(mdir, "meta.json"))) if os.path.exists(os.path.join(mdir, "meta.json")) else {}
     patch = os.path.join(mdir, "patch.diff")
-    demo_cmd = meta["demo_cmd"]
+    demo_cmd = meta.get("demo_cmd", "")
     report = {"ran": []}
 
     def clean():
         sh("git checkout -- . && git clean -fdq", cwd=wt)
 
-    clean()
-    def failed(rc, out):
-        return rc != 0 or "--- FAIL" in out or "\nFAIL" in out or "panic:" in out
+    name0 = "%s-%s" % (prop, os.path.basename(mdir))
+    prev = os.path.join("/verif/seeded", name0, "meta.json")
+    recheck = os.environ.get("RECHECK") and os.path.exists(prev) and json.load(open(prev)).get("evaluation", {}).get("confirmed")
+    if recheck:
+        # confirmed earlier in its worktree: only run the (strengthened) checks again
+        meta = json.load(open(prev))
+        report = meta["evaluation"]
+        report.setdefault("history", []).append({"our_checks": report.get("our_checks"), "detected": report.get("detected")})
+        confirmed = True
+        patch = os.path.join("/verif/seeded", name0, "patch.diff")
+    else:
+        clean()
+        def failed(rc, out):
+            return rc != 0 or "--- FAIL" in out or "\nFAIL" in out or "panic:" in out
 
-    rc0, out0 = sh(demo_cmd, cwd=wt)
-    rc0 = 1 if failed(rc0, out0) else 0
-    report["demo_on_clean_tree"] = "pass" if rc0 == 0 else "FAIL"
-    clean()
-    rc, out = sh("git apply --whitespace=nowarn " + patch, cwd=wt)
-    report["patch_applies"] = rc == 0
-    rcb, outb = sh("go build ./...", cwd=wt)
-    report["builds_with_patch"] = rcb == 0
-    rc1, out1 = sh(demo_cmd, cwd=wt)
-    rc1 = 1 if failed(rc1, out1) else 0
-    report["demo_with_patch"] = "pass" if rc1 == 0 else "FAIL"
-    # existing tests of the touched packages (+ their dependants' most relevant suites)
-    pkgs = sorted({"./" + os.path.dirname(f) + "/..." for f in meta.get("files_changed", [])})
-    sh("git clean -fdq", cwd=wt)  # remove the demo file, keep the patch
-    rct, outt = sh("go test -count=1 " + " ".join(pkgs) + " ./internal/broker/ ./internal/service/pubsub/ 2>&1 | tail -30", cwd=wt)
-    # failures that the unchanged tree shows offline as well (network / DNS / timing) are not counted
-    baseline = ("TestJoin", "TestNewClient", "TestStatsd", "TestTimeout")
-    tfails = [l for l in outt.splitlines() if l.startswith("--- FAIL") and not any(b in l for b in baseline)]
-    fails = tfails
-    report["existing_tests_with_patch"] = "pass" if not fails else fails
-    clean()
-    confirmed = rc0 == 0 and rc == 0 and rcb == 0 and rc1 != 0 and not fails
-    report["confirmed"] = confirmed
+        rc0, out0 = sh(demo_cmd, cwd=wt)
+        rc0 = 1 if failed(rc0, out0) else 0
+        report["demo_on_clean_tree"] = "pass" if rc0 == 0 else "FAIL"
+        clean()
+        rc, out = sh("git apply --whitespace=nowarn " + patch, cwd=wt)
+        report["patch_applies"] = rc == 0
+        rcb, outb = sh("go build ./...", cwd=wt)
+        report["builds_with_patch"] = rcb == 0
+        rc1, out1 = sh(demo_cmd, cwd=wt)
+        rc1 = 1 if failed(rc1, out1) else 0
+        report["demo_with_patch"] = "pass" if rc1 == 0 else "FAIL"
+        # existing tests of the touched packages (+ their dependants' most relevant suites)
+        pkgs = sorted({"./" + os.path.dirname(f) + "/..." for f in meta.get("files_changed", [])})
+        sh("git clean -fdq", cwd=wt)  # remove the demo file, keep the patch
+        rct, outt = sh("go test -count=1 " + " ".join(pkgs) + " ./internal/broker/ ./internal/service/pubsub/ 2>&1 | tail -30", cwd=wt)
+        # failures that the unchanged tree shows offline as well (network / DNS / timing) are not counted
+        baseline = ("TestJoin", "TestNewClient", "TestStatsd", "TestTimeout")
+        tfails = [l for l in outt.splitlines() if l.startswith("--- FAIL") and not any(b in l for b in baseline)]
+        fails = tfails
+        report["existing_tests_with_patch"] = "pass" if not fails else fails
+        clean()
+        confirmed = rc0 == 0 and rc == 0 and rcb == 0 and rc1 != 0 and not fails
+        report["confirmed"] = confirmed
 
     # our checks against the patched /repo
     results = {}
@@ -93,10 +104,11 @@ def main():
     name = "%s-%s" % (prop, os.path.basename(mdir))
     dest = os.path.join("/verif/seeded", name)
     os.makedirs(dest, exist_ok=True)
-    shutil.copy(patch, os.path.join(dest, "patch.diff"))
-    for f in os.listdir(mdir):
-        if f.startswith("demo"):
-            shutil.copy(os.path.join(mdir, f), os.path.join(dest, f))
+    if not recheck:
+        shutil.copy(patch, os.path.join(dest, "patch.diff"))
+        for f in os.listdir(mdir):
+            if f.startswith("demo"):
+                shutil.copy(os.path.join(mdir, f), os.path.join(dest, f))
     meta["evaluation"] = report
     json.dump(meta, open(os.path.join(dest, "meta.json"), "w"), indent=1)
     print(json.dumps({"mutant": name, "confirmed": confirmed, "detected": detected, "checks": results}, indent=1))
